@@ -76,6 +76,15 @@ DevIdentListBatch(src) ==
      LET b == BodyOf(src.ids, n) IN
      b.t = "map" /\ Len(b.es) = 1 /\ b.es[1].v.t = "list" /\ HasBatch(b.es[1].v.vs, b.es[1].m)
 
+(* KF ident_list_members: the same identifier shape with ANY list of two or more members: the  *)
+(* identifier's expression is the list's or-group and the quantifier counts its members.      *)
+DevIdentListMembers(src) ==
+  src.cond.t # "text" /\
+  \E n \in QuantNames(src.cond) :
+     LET b == BodyOf(src.ids, n) IN
+     b.t = "map" /\ Len(b.es) = 1 /\ b.es[1].v.t = "list" /\ Len(b.es[1].v.vs) >= 2
+     /\ b.es[1].m \notin {"not", "all", "of"}
+
 (* ----- negation contexts: the only places where false and missing are told apart ----- *)
 RECURSIVE CondHasNot(_), CondHasOf0(_), CondDoubleNot(_)
 CondHasNot(c) ==
@@ -163,6 +172,7 @@ Devs(c, d) ==
            indefinite == d \in DOMAIN c.docs /\ ~Definite(src, c.docs[d]) IN
        (IF DevQuantPartialBatch(src) THEN {"quant_partial_batch"} ELSE {})
        \cup (IF DevIdentListBatch(src) THEN {"ident_list_batch"} ELSE {})
+       \cup (IF DevIdentListMembers(src) THEN {"ident_list_members"} ELSE {})
        \cup (IF d \in DOMAIN c.docs /\ DevQuantBatchArray(src, c.docs[d]) THEN {"quant_batch_array"} ELSE {})
        \cup (IF DevFlattenSeq(src) THEN {"shake_flatten_seq"} ELSE {})
        \cup (IF DevMergeBatch(src) THEN {"shake_merge_batch"} ELSE {})
